@@ -6,6 +6,7 @@ DISABLE back, so the overhead is a few percent.  A monitor that wrapped a functi
 calls would otherwise report "held" on zero observations; with the counters the run is inconclusive.
 """
 import importlib
+import os
 import sys
 
 
@@ -50,10 +51,33 @@ def resolve(anchor):
     return _code_of(obj, parts[-1])
 
 
+def function_lines(path):
+    """{(qualname-ish name, first line): set of line numbers} of every function body compiled from the file."""
+    import types
+    out = {}
+    try:
+        top = compile(open(path).read(), path, "exec")
+    except Exception:
+        return out
+
+    def walk(co):
+        for c in co.co_consts:
+            if isinstance(c, types.CodeType):
+                if c.co_flags & 0x2 and c.co_name not in ("<module>",):        # CO_NEWLOCALS: functions, lambdas, comprehensions
+                    lines = {l for (_s, _e, l) in c.co_lines() if l is not None and l != c.co_firstlineno}
+                    if lines:
+                        out[(c.co_name, c.co_firstlineno)] = lines
+                walk(c)
+    walk(top)
+    return out
+
+
 class ReachCounter:
     TOOL = 3
 
-    def __init__(self, anchors):
+    def __init__(self, anchors, cover_files=()):
+        self.cover_files = {os.path.realpath(f) for f in cover_files}
+        self.lines_hit = {}          # realpath -> set of executed line numbers (function bodies only)
         self.counts = {a: 0 for a in anchors}
         self.unresolved = []
         self._by_code = {}
@@ -68,7 +92,7 @@ class ReachCounter:
                 self._by_code.setdefault(code, []).append(a)
 
     def start(self):
-        if not self._by_code:
+        if not self._by_code and not self.cover_files:
             return
         mon = sys.monitoring
         try:
@@ -76,23 +100,45 @@ class ReachCounter:
         except ValueError:
             pass
         by_code, counts = self._by_code, self.counts
+        cover, hit, armed, real = self.cover_files, self.lines_hit, set(), {}
 
         def on_start(code, offset):
+            # line coverage of the watched files: every line event fires once and is then switched off (DISABLE), so the cost
+            # is one callback per executed line per process
+            if cover and code not in armed:
+                armed.add(code)
+                fn = real.get(code.co_filename)
+                if fn is None:
+                    fn = real[code.co_filename] = os.path.realpath(code.co_filename)
+                if fn in cover:
+                    try:
+                        mon.set_local_events(self.TOOL, code, mon.events.LINE)
+                    except Exception:
+                        pass
             names = by_code.get(code)
             if names is None:
                 return mon.DISABLE
             for n in names:
                 counts[n] += 1
 
+        def on_line(code, line):
+            fn = real.get(code.co_filename) or os.path.realpath(code.co_filename)
+            hit.setdefault(fn, set()).add(line)
+            return mon.DISABLE
+
         mon.register_callback(self.TOOL, mon.events.PY_START, on_start)
+        if cover:
+            mon.register_callback(self.TOOL, mon.events.LINE, on_line)
         mon.set_events(self.TOOL, mon.events.PY_START)
 
     def stop(self):
-        if not self._by_code:
+        if not self._by_code and not self.cover_files:
             return
         mon = sys.monitoring
         mon.set_events(self.TOOL, 0)
         mon.register_callback(self.TOOL, mon.events.PY_START, None)
+        if self.cover_files:
+            mon.register_callback(self.TOOL, mon.events.LINE, None)
         try:
             mon.free_tool_id(self.TOOL)
         except Exception:
